@@ -356,6 +356,15 @@ impl<T> ExactSizeIterator for LocalPinnedPoolIterator<'_, T> {
 
 impl<T> FusedIterator for LocalPinnedPoolIterator<'_, T> {}
 
+#[cfg(folo_verif)]
+impl<T: 'static> LocalPinnedPool<T> {
+    /// Verification hook: read-only snapshot of the inner pool's bookkeeping.
+    #[must_use]
+    pub fn verif_probe(&self) -> crate::verif::PoolProbe {
+        self.inner.borrow().verif_probe()
+    }
+}
+
 #[cfg(test)]
 #[cfg_attr(coverage_nightly, coverage(off))]
 mod tests {
